@@ -1,4 +1,4 @@
-"""C10 (exhaustive over the 12 scale pairs x registered SI prefixes, sampled magnitudes):
+"""C10 (exhaustive over the 12 scale pairs x registered prefixes (SI and IEC), sampled magnitudes):
 temperature conversions follow the exact affine definitions C = K - 273.15, F = R - 459.67,
 R = 9/5 K."""
 from decimal import Decimal
@@ -45,6 +45,12 @@ def c10_order(src, dst, m1, m2, ns):
     if abs(k1 - k2) > Fraction(1, 10**6):
         if (a1 < a2) != (k1 < k2): bad.append("order: %r %s < %r %s is %r" % (m1, src, m2, dst, a1 < a2))
         if a1 == a2: bad.append("equality: %r %s == %r %s" % (m1, src, m2, dst))
+    # the same temperature written in the other scale (the library's own conversion of a1, compared by the very same conversion):
+    # exactly one of < == > holds, and it is ==
+    same = a1.in_unit(ns[dst])
+    obs = (a1 < same, a1 <= same, a1 == same, a1 >= same, a1 > same, a1 != same)
+    if obs != (False, True, True, True, False, False):
+        bad.append("equal-temperatures: (< <= == >= > !=) of %r %s against its own value in %s are %r" % (m1, src, dst, obs))
     return bad
 '''
 exec(CHECK)
@@ -54,7 +60,7 @@ SCALES = ["Kelvin", "Celsius", "Fahrenheit", "Rankine"]
 def run(tier, seed):
     ns = namespace()
     _, prefixes, _ = pools(ns)
-    si = [p for p in prefixes if ns[p].base == 10]
+    si = [p for p in prefixes if ns[p].base in (10, 2)]  # every registered prefix, decimal (SI) and binary (IEC)
     rng = seed_rng(seed, "C10")
     mags = [0, 25, -40, 300.5, -500, Decimal("36.6"), 1e6, -273.15]
     failures, samples, evals, distinct = [], [], 0, set()
@@ -68,7 +74,7 @@ def run(tier, seed):
             else:
                 combos += [(rng.choice(si), rng.choice(si)) for _ in range(6)]
             for ps, pd in combos:
-                for mag in (mags if tier != "quick" else rng.sample(mags, 3)):
+                for mag in (mags if tier != "quick" else rng.sample(mags, 2) + [Decimal("36.6")]):
                     evals += 1
                     distinct.add((s, ps, d, pd))
                     try:
@@ -94,7 +100,7 @@ def run(tier, seed):
             if len(samples) < 5:
                 samples.append("%s -> %s with %d prefix combinations" % (s, d, len(combos)))
     return {"evaluations": evals, "distinct": len(distinct), "failures": failures[:8], "samples": samples,
-            "rule": "all 12 ordered pairs of kelvin/celsius/fahrenheit/rankine x (no prefix, every SI prefix on source, every SI prefix on target%s) x magnitudes "
+            "rule": "all 12 ordered pairs of kelvin/celsius/fahrenheit/rankine x (no prefix, every registered prefix on source, every registered prefix on target%s) x magnitudes "
                     "(int, float, Decimal, below absolute zero) against closed forms in exact rationals; round trips; order and equality across scales; "
                     "distinct = distinct (scale, prefix, scale, prefix)" % (", all prefix pairs" if tier != "quick" else ", 6 sampled prefix pairs"),
             "bound": "exhaustive over scale pairs and single prefixes", "exhaustive": tier != "quick"}
